@@ -500,7 +500,7 @@ Qed.
 
 Lemma step_inv : forall st a st' v, inv st -> step begin_copy st a = Some (st', v) -> inv st'.
 Proof.
-  intros st a st' v [Hlen Hinv] Hs. destruct a as [i|i c|i c|i|i]; simpl in Hs.
+  intros st a st' v [Hlen Hinv] Hs. destruct a as [i|i c|i c|i|i|i]; simpl in Hs.
   - (* ABegin *)
     destruct (execs st i) eqn:Ei; [discriminate|]. inversion Hs; subst; clear Hs. split.
     + simpl. rewrite app_length, length_upd_nth. lia.
@@ -537,6 +537,8 @@ Proof.
     destruct (execs st i) as [e|]; [|discriminate]. destruct (ex_cache e c); [|discriminate].
     inversion Hs; subst. split; assumption.
   - (* ABody *)
+    destruct (execs st i) as [e|]; [|discriminate]. inversion Hs; subst. split; assumption.
+  - (* AResult *)
     destruct (execs st i) as [e|] eqn:Ei; [|discriminate]. inversion Hs; subst; clear Hs.
     destruct (Hinv i e Ei) as [H1 [H2 H3]]. split; [exact Hlen|].
     intros j e'. simpl. unfold fupd. destruct (Nat.eqb_spec j i) as [->|Hne].
@@ -549,7 +551,7 @@ Qed.
 
 Lemma step_own : forall st a st' v, inv st -> step begin_copy st a = Some (st', v) -> own_value a v = true.
 Proof.
-  intros st a st' v [Hlen Hinv] Hs. destruct a as [i|i c|i c|i|i]; simpl in Hs.
+  intros st a st' v [Hlen Hinv] Hs. destruct a as [i|i c|i c|i|i|i]; simpl in Hs.
   - destruct (execs st i); [discriminate|]. inversion Hs; subst. reflexivity.
   - destruct (execs st i) as [e|]; [|discriminate]. destruct (ex_cache e c); [discriminate|].
     inversion Hs; subst. reflexivity.
@@ -557,6 +559,7 @@ Proof.
     inversion Hs; subst. destruct (Hinv i e Ei) as [_ [H2 _]]. destruct (H2 c a Ec) as [_ Hg].
     rewrite Hg. simpl. apply Nat.eqb_refl.
   - destruct (execs st i) as [e|]; [|discriminate]. inversion Hs; subst. simpl. apply Nat.eqb_refl.
+  - destruct (execs st i) as [e|]; [|discriminate]. inversion Hs; subst. reflexivity.
   - destruct (execs st i) as [e|] eqn:Ei; [|discriminate]. inversion Hs; subst.
     destruct (Hinv i e Ei) as [_ [_ H3]]. simpl. destruct (ex_ret e) as [m|].
     + rewrite (H3 m eq_refl). now rewrite Nat.eqb_refl.
@@ -616,14 +619,18 @@ Lemma enabled : forall st, reachable st ->
      exists st', step begin_copy st (ATraverse i c) = Some (st', VUnit)) /\
   (forall i e c a, execs st i = Some e -> ex_cache e c = Some a ->
      step begin_copy st (ARead i c) = Some (st, VCtx (Some i))) /\
-  (forall i e, execs st i = Some e -> exists st', step begin_copy st (ABody i) = Some (st', VMsg i)).
+  (forall i e, execs st i = Some e -> step begin_copy st (ABody i) = Some (st, VMsg i)) /\
+  (forall i e, execs st i = Some e -> exists st', step begin_copy st (AResult i) = Some (st', VUnit)) /\
+  (forall i e, execs st i = Some e -> step begin_copy st (ASave i) = Some (st, VSaved i (ex_ret e))).
 Proof.
   intros st Hr. pose proof (reachable_inv _ Hr) as [Hlen Hinv]. repeat split.
   - intros i Hi. simpl. rewrite Hi. eexists. reflexivity.
   - intros i e c Hi Hc. simpl. rewrite Hi, Hc. eexists. reflexivity.
   - intros i e c a Hi Hc. simpl. rewrite Hi, Hc. destruct (Hinv i e Hi) as [_ [H2 _]].
     destruct (H2 c a Hc) as [_ Hg]. now rewrite Hg.
+  - intros i e Hi. simpl. now rewrite Hi.
   - intros i e Hi. simpl. rewrite Hi. eexists. reflexivity.
+  - intros i e Hi. simpl. now rewrite Hi.
 Qed.
 
 (* ------------------------------------------------------------------ the known finding (D6) on the faithful model *)
